@@ -129,6 +129,7 @@ def finish(ctx, results):
         return len(nonunit) >= 2 or any(r["stridesW"][i] != [1] for i in nonunit)
 
     merged = {}
+    drift, drift_first = {}, {}
     for trace, res in results:
         with open(trace) as f:
             for line in f:
@@ -151,6 +152,15 @@ def finish(ctx, results):
                 merged[key] = dict(b)
         for k in ("submits", "accepted", "undecided"):
             ctx.cov[k] = ctx.cov.get(k, 0) + res["stats"].get(k, 0)
+        # DRIFT: the storage-free APIs answer what the transcription of the current code predicts
+        for m in re.finditer(r'<<"DRIFTSIG", %s, (\d+)>>' % _STR, res["out"]):
+            k = vlib.tla_unescape(m.group(1))
+            drift[k] = drift.get(k, 0) + int(m.group(2))
+        for m in re.finditer(r'<<"DRIFTCASE", %s, %s>>' % (_STR, _STR), res["out"]):
+            drift_first.setdefault(json.dumps(json.loads(vlib.tla_unescape(m.group(1))), sort_keys=True),
+                                   vlib.tla_unescape(m.group(2))[:240])
+    for k, v in sorted(drift.items()):
+        ctx.drift("%s count=%d first=%s" % (k, v, drift_first.get(json.dumps(json.loads(k), sort_keys=True), "")))
     ctx.judge(list(merged.values()), "vh-tensor overlap", TSPEC, TCFG, case_lookup=lambda rec: rec.get("case"))
     ctx.cov["evaluations"] = total
     ctx.cov["distinct_layouts"] = len(seen)
